@@ -68,9 +68,9 @@ CLAIMED = {
         ref="5.C13, 6 (D1)", note=STD + "No axioms (Closed under the global context).",
         technique="Coq theorem over Z model + extracted-model differential correspondence"),
     "C14": dict(
-        text="Full for conservation, 'nothing else changes', Fair's shape, v1=v2 and Rate's ordering: proved in Coq for every priority list, dividend and pre-filled distribution, conservation for ANY rounding function (so independent of float64), ordering for any rounding monotone in the priority (discharged for the exact rational rounding). Rate's closeness to the proportional share is monitored on the implementation and not yet a theorem (partial). The float64 model (Flocq binary64) is compared bit-exactly with Go on an exhaustive small sub-space and random large magnitudes on every run, for both module versions.",
-        ref="5.C14", note=STD + "The C14 theorems are closed under the global context; the float64 instance used only in the correspondence depends on the Flocq axioms. " + FLOCQ,
-        technique="Coq theorems over assoc-list model (parametric in the rounding) + Flocq-based executable model compared with Go"),
+        text="Full except one lifting: proved in Coq for every priority list, dividend and pre-filled distribution: Fair and Rate add exactly the dividend (Rate for ANY rounding function, so independent of float64) and change nothing outside the listed priorities; Fair's increments are base+1 on a prefix and base after it; v1 = v2; Rate's increments are non-increasing for any rounding monotone in the priority (discharged for the exact rational rounding) and each is within n/2 of the exact proportional share for any rounding within 1/2 (C14_rate_close, literal bound) -- discharged for the exact rounding and for the float64 computation itself on d,S,p < 2^53, d*p <= 2^50 (C14_part_f_close, C14_rate_f_close, via Flocq). float64 and exact rounding differ only at exact halves, by one downwards (C14_part_f_near_part_q; kernel-checked witness part_f 1 98 49 = 0). Missing: the order theorem instantiated for float64 (monotonicity of part_f is proved only on the bounded domain). The float64 model is compared bit-exactly with Go on an exhaustive small sub-space and random large magnitudes on every run, for both versions.",
+        ref="5.C14, 11.2", note=STD + "The conservation/shape/order theorems are closed under the global context; theorems that mention float64 depend on the four standard-library axioms Flocq's Reals bring in. " + FLOCQ,
+        technique="Coq theorems over assoc-list model (parametric in the rounding) + Flocq error analysis + executable model compared with Go"),
     "C18": dict(
         text="Full for the combinatorial part: genCombinations enumerates exactly the non-empty order-preserving sub-lists (2^n-1), IsNonFatalConfig iff every member of every such sub-list gets >=1, PickUpMin/Max return the least/greatest q in [1,max] satisfying the predicate or 0, IsSuitableConfig => IsNonFatalConfig, monotone in the limit (given monotonicity of float64 '>' in its right argument, stated as a hypothesis), non-fatal => accepted by the v2 constructor for any dividend-conserving divider. Proved for all inputs. Model tied to both module versions by exact comparison of every helper, including composite scenarios that return the predicate for every q in [1,max]; clauses also monitored against an independent Python definition.",
         ref="5.C18, 6 (D2)", note=STD + FLOCQ,
